@@ -63,7 +63,6 @@ def main(argv):
                     try:
                         from exo.API import compile_procs_to_strings as _cps
 
-                        _cps([sess.cur], "earlier_lib.h")
                         rel = None
                         for a in sess.cur._loopir_proc.args:
                             if type(a.type).__name__ == "Size":
@@ -76,7 +75,9 @@ def main(argv):
                             if rel is not None:
                                 break
                         if rel is not None:
-                            _cps([rel], "relative.h")
+                            _cps([rel], "relative.h")  # the relative first: what it leaves behind is narrower
+                        _cps([sess.cur], "earlier_lib.h")
+                        if rel is not None:
                             try:
                                 from exo.stdlib.scheduling import simplify as _simp
 
